@@ -8,7 +8,9 @@ func init() {
 		Rule: "decision monitor: a case = (covert string, policy); it is non-trivial when the string has host:port structure with a decimal 16-bit port " +
 			"(so the verdict depended on policy / resolver, not on syntax alone); distinct_nontrivial = distinct (string, policy) pairs of that kind. " +
 			"e2e monitor: a case = one registration pushed through parseRegMessage + ingestRegistration (+ Proxy when it became valid) with loopback listeners " +
-			"on permitted and forbidden addresses; distinct = (scenario kind, policy mode, registration source, v4/v6 split)",
+			"on permitted and forbidden addresses; distinct = (scenario kind, policy mode, registration source, v4/v6 split); further e2e classes: histories of one secret with different coverts " +
+			"and back-dated records, admitted literal without listener (failure path of Proxy), and registrations on connecting transports (mock + real DTLS transport, Connect succeeds) " +
+			"whose sessions ingest itself hands to Proxy – per (policy, covert class, source) the evidence counts cases, successful Connects and observed Proxy runs",
 		Assumptions: []string{
 			"policy entries are canonical CIDRs / valid regexps (malformed entries are C19's subject); no v4-mapped IPv6 CIDRs are generated",
 			"'inside a subnet' is judged on the address net.Dial connects to: v4-mapped literals are unmapped, zones are dropped",
@@ -16,10 +18,10 @@ func init() {
 			"listener accept order (marker connection) is used to decide that no further connection arrived; a late accept would only hide a violation, never create one",
 		},
 		Stages: []Stage{
-			{Name: "decision", Pkg: "./pkg/station/lib", Run: "^TestVerifC06Decision$", Drivers: []string{"lib"}, TimeoutQ: 10 * time.Minute, TimeoutT: 40 * time.Minute},
-			{Name: "reload", Pkg: "./pkg/station/lib", Run: "^TestVerifC06ReloadConsistency$", Drivers: []string{"lib"}, Race: true, TimeoutQ: 10 * time.Minute, TimeoutT: 40 * time.Minute,
+			{Name: "decision", Pkg: "./pkg/station/lib", Run: "^TestVerifC06Decision$", Drivers: []string{"lib"}, Exports: []string{"cdtls"}, TimeoutQ: 10 * time.Minute, TimeoutT: 40 * time.Minute},
+			{Name: "reload", Pkg: "./pkg/station/lib", Run: "^TestVerifC06ReloadConsistency$", Drivers: []string{"lib"}, Exports: []string{"cdtls"}, Race: true, TimeoutQ: 10 * time.Minute, TimeoutT: 40 * time.Minute,
 				RaceFilter: func(r RaceReport) bool { return r.Has("station/lib.") }},
-			{Name: "e2e", Pkg: "./pkg/station/lib", Run: "^TestVerifC06EndToEnd$", Drivers: []string{"lib"}, TimeoutQ: 10 * time.Minute, TimeoutT: 40 * time.Minute},
+			{Name: "e2e", Pkg: "./pkg/station/lib", Run: "^TestVerifC06EndToEnd$", Drivers: []string{"lib"}, Exports: []string{"cdtls"}, TimeoutQ: 10 * time.Minute, TimeoutT: 40 * time.Minute},
 		},
 	})
 }
